@@ -49,6 +49,20 @@ Theorem c12_clamp_respects_limit : forall bs mp tot per bs', 1 <= per -> mp <> 0
 Proof. exact clamp_limit. Qed.
 Print Assumptions c12_clamp_respects_limit.
 
+(* in terms of bound parameters (k per VALUES row): the limit is respected when no VALUES element
+   holds more than one of them ... *)
+Theorem c12_clamp_respects_limit_guarded : forall bs mp tot per k bs', 1 <= per -> mp <> 0 -> 0 <= k <= per ->
+  1 <= bs' -> clamp bs mp tot per = Ok bs' -> (tot - k) + bs' * k <= mp.
+Proof. exact clamp_limit_binds. Qed.
+Print Assumptions c12_clamp_respects_limit_guarded.
+(* ... finding C12-clamp-counts-elements: one element `coalesce(:a, :b, :c)`, page size 20000, limit
+   32700: the clamp leaves 20000 rows = 60000 parameters in one statement *)
+Theorem c12_clamp_respects_limit_refuted :
+  exists bs mp tot per k bs', 1 <= per /\ 1 <= bs /\ tot <= mp /\ per <= k /\
+    clamp bs mp tot per = Ok bs' /\ 1 <= bs' /\ (tot - k) + bs' * k > mp.
+Proof. exact clamp_limit_binds_refuted. Qed.
+Print Assumptions c12_clamp_respects_limit_refuted.
+
 (* the slice-and-delete loop: for every size >= 1 and every list the chunks concatenate to the
    list, each holds 1..size elements and reports its own length as current_batch_size, all but the
    last are full, and there are exactly total_batches of them; the fuel len(l) suffices *)
